@@ -1,7 +1,8 @@
 import Dcg.Driver.Proto
 import Dcg.Model.Names
+import Dcg.Model.TypedDict
 namespace Dcg.Driver.Names
-open Dcg.Driver Dcg.Model.Names Dcg.Py.Chars Dcg.Py.Ident
+open Dcg.Driver Dcg.Model.Names Dcg.Model.TypedDict Dcg.Py.Chars Dcg.Py.Ident
 
 def kind? : SX → Option Kind
   | .atom "base" => some .base
@@ -41,6 +42,28 @@ def encOpt (o : Option (List Char)) : String :=
   | none => "none"
 
 def b2s (b : Bool) : String := if b then "1" else "0"
+
+/-- `(name|none orig|none tag)` -/
+def tdField? : SX → Option TdField
+  | .list [n, o, t] => match optStr? n, optStr? o, t.nat? with
+    | some n, some o, some t => some { name := n, orig := o, tag := t }
+    | _, _, _ => none
+  | _ => none
+
+/-- `other` | `(cls (<class>…) (<field>…))` (members as they are) | `(mk (<class>…) (<field>…))` (through the
+constructor: `_validate_fields`) -/
+partial def tdClass? : SX → Option TdClass
+  | .atom "other" => some .other
+  | .list [.atom how, .list bs, .list fs] =>
+    match bs.mapM tdClass?, fs.mapM tdField? with
+    | some bs, some fs =>
+      if how == "cls" then some (.cls bs fs) else if how == "mk" then some (TdClass.mk' bs fs) else none
+    | _, _ => none
+  | _ => none
+
+def encField (f : TdField) : String := encOpt f.name ++ "/" ++ encOpt f.orig ++ "/" ++ toString f.tag
+def encEntry (e : Entry) : String := encodeStr e.1 ++ "/" ++ toString e.2
+def encList (xs : List String) : String := "(" ++ " ".intercalate xs ++ ")"
 
 def handlers : List (String × Handler) := [
   ("names.valid", fun
@@ -84,8 +107,18 @@ def handlers : List (String × Handler) := [
     | _ => "err args"),
   ("names.tdfunc", fun
     | [.list ps] => match ps.mapM pair? with
-      | some ps => "ok " ++ b2s (tdFunctional ps)
+      | some ps => "ok " ++ b2s (tdFunctional (ps.map fun p => { name := some p.1, orig := some p.2 }))
       | none => "err args"
+    | _ => "err args"),
+  -- names.tdclass <class> → ok <functional 0|1> (own members: name/orig/tag …) (all_fields …) (annotations of the
+  -- class Python builds: key/tag …)
+  ("names.tdclass", fun
+    | [c] => match tdClass? c with
+      | some (.cls bs fs) =>
+        let c := TdClass.cls bs fs
+        "ok " ++ b2s (tdFunctional fs) ++ " " ++ encList (fs.map encField) ++ " "
+          ++ encList (c.allFields.map encField) ++ " " ++ encList (c.rendered.map encEntry)
+      | _ => "err args"
     | _ => "err args"),
   ("names.c2s", fun
     | [s] => match s.str? with
